@@ -231,3 +231,522 @@ Lemma proc_repl_param : forall ps prev rest' shp args buf s i,
       else PrArg i (TIdent false s :: prev) rest' args buf      (* otherwise: expand the argument first *)
   end.
 Proof. intros ps prev rest' shp args buf s i H. cbn [proc_repl]. rewrite H. reflexivity. Qed.
+
+(* ====================================================================================== *)
+(* Part 2: the painting discipline -- stack, markers and ignore flags stay in step          *)
+(* ====================================================================================== *)
+
+Lemma speq_eq : forall a b, speq a b = true <-> a = b.
+Proof.
+  induction a as [|x a IH]; destruct b as [|y b]; cbn; split; intros H; try discriminate; try reflexivity.
+  - apply andb_true_iff in H as [H1 H2]. apply Nat.eqb_eq in H1. apply IH in H2. subst; reflexivity.
+  - inversion H; subst. rewrite Nat.eqb_refl. cbn. apply IH; reflexivity.
+Qed.
+Lemma speq_refl : forall a, speq a a = true. Proof. intros; apply speq_eq; reflexivity. Qed.
+
+Lemma ignored_In : forall ig n, ignored ig n = true <-> In n ig.
+Proof.
+  intros ig n; unfold ignored; rewrite existsb_exists; split.
+  - intros [x [Hx E]]. apply speq_eq in E; subst; assumption.
+  - intros H; exists n; split; [assumption|apply speq_refl].
+Qed.
+
+Lemma unignore_incl : forall n ig x, In x (unignore n ig) -> In x ig.
+Proof. intros n ig x H; unfold unignore in H; apply filter_In in H; tauto. Qed.
+
+Lemma unignore_head : forall n ig, NoDup (n :: ig) -> unignore n (n :: ig) = ig.
+Proof.
+  intros n ig H. inversion H as [|? ? Hn Hd]; subst. unfold unignore; cbn. rewrite speq_refl; cbn.
+  clear H Hd. induction ig as [|x ig IH]; cbn; [reflexivity|].
+  destruct (speq n x) eqn:E.
+  - apply speq_eq in E; subst. exfalso; apply Hn; left; reflexivity.
+  - cbn. f_equal. apply IH. intros Hi; apply Hn; right; assumption.
+Qed.
+
+(* not one of the two markers that correspond to entries of macro_call_stack *)
+Definition nm (t : tok) : bool := match t with TEoa | TEor => false | _ => true end.
+Definition clean (l : list tok) : Prop := forallb nm l = true.
+
+(* the markers of the pending input, innermost first: true = T_EOR, false = T_EOA *)
+Fixpoint markers (i : list tok) : list bool :=
+  match i with
+  | [] => []
+  | TEor :: r => true :: markers r
+  | TEoa :: r => false :: markers r
+  | _ :: r => markers r
+  end.
+
+Lemma markers_app : forall a b, markers (a ++ b) = markers a ++ markers b.
+Proof. induction a as [|t a IH]; intros b; cbn; [reflexivity|]. destruct t; cbn; rewrite ?IH; reflexivity. Qed.
+Lemma markers_clean : forall l, clean l -> markers l = [].
+Proof.
+  unfold clean; induction l as [|t l IH]; cbn; intros H; [reflexivity|].
+  apply andb_true_iff in H as [H1 H2]. destruct t; cbn in *; try discriminate; auto.
+Qed.
+Lemma markers_nm_cons : forall t r, nm t = true -> markers (t :: r) = markers r.
+Proof. intros t r H; destruct t; cbn in *; try discriminate; reflexivity. Qed.
+
+Lemma clean_app : forall a b, clean (a ++ b) <-> clean a /\ clean b.
+Proof. intros; unfold clean; rewrite forallb_app, andb_true_iff; tauto. Qed.
+Lemma clean_cons : forall t l, clean (t :: l) <-> nm t = true /\ clean l.
+Proof. intros; unfold clean; cbn; rewrite andb_true_iff; tauto. Qed.
+Lemma clean_rev : forall l, clean l -> clean (rev l).
+Proof. induction l as [|t l IH]; cbn; intros H; [exact H|]. apply clean_cons in H as [H1 H2]. apply clean_app; split; [auto|]. apply clean_cons; split; [assumption|reflexivity]. Qed.
+Lemma clean_firstn : forall n l, clean l -> clean (firstn n l).
+Proof. induction n as [|n IH]; intros [|t l] H; cbn; try reflexivity. apply clean_cons in H as [H1 H2]. apply clean_cons; auto. Qed.
+
+Lemma add_token_clean : forall l t, clean l -> nm t = true -> clean (add_token l t).
+Proof. intros l t Hl Ht; unfold add_token. destruct (is_ws t && last_ws l); [assumption|]. apply clean_app; split; [assumption|]. apply clean_cons; split; [assumption|reflexivity]. Qed.
+Lemma add_tokens_clean : forall from to, clean to -> clean from -> clean (add_tokens to from).
+Proof.
+  unfold add_tokens; induction from as [|t from IH]; intros to Ht Hf; cbn; [assumption|].
+  apply clean_cons in Hf as [H1 H2]. apply IH; [apply add_token_clean|]; assumption.
+Qed.
+Lemma strip_ws1_clean : forall l, clean l -> clean (strip_ws1 l).
+Proof.
+  intros l H; unfold strip_ws1.
+  set (l1 := match l with t :: r => if is_ws t then r else l | [] => [] end).
+  assert (H1 : clean l1).
+  { subst l1; destruct l as [|t r]; [reflexivity|]. destruct (is_ws t); [apply clean_cons in H; tauto|assumption]. }
+  destruct (rev l1) as [|t r] eqn:E; [reflexivity|].
+  destruct (is_ws t); [|assumption].
+  apply clean_rev in H1. rewrite E in H1. apply clean_cons in H1 as [_ H1]. apply clean_rev; assumption.
+Qed.
+
+Definition cleans (a : list (list tok)) : Prop := Forall clean a.
+Lemma nth_cleans : forall a i, cleans a -> clean (nth i a []).
+Proof. induction a as [|x a IH]; intros [|i] H; cbn; try reflexivity; inversion H; subst; auto. Qed.
+Lemma set_nth_cleans : forall a i x, cleans a -> clean x -> cleans (set_nth i x a).
+Proof. induction a as [|y a IH]; intros [|i] x H Hx; cbn; try constructor; inversion H; subst; auto. apply IH; assumption. Qed.
+
+(* token_concat never produces a marker *)
+Lemma classify_nm : forall s t, classify s = Some t -> nm t = true.
+Proof.
+  intros s t H; unfold classify in H. destruct s as [|c r]; [discriminate|].
+  repeat match type of H with context [if ?b then _ else _] => destruct b end; try discriminate; inversion H; reflexivity.
+Qed.
+
+Lemma skip1_clean : forall l, clean l -> clean (skip1 l).
+Proof. intros [|w l] H; cbn; [assumption|]. destruct (is_ws w); [apply clean_cons in H; tauto|assumption]. Qed.
+Lemma skip1_length : forall l, length (skip1 l) <= length l.
+Proof. intros [|w l]; cbn; [lia|]. destruct (is_ws w); cbn; lia. Qed.
+
+Lemma dc_clean : forall n todo done l, length todo <= n -> clean todo -> clean done -> dc todo done = Some l -> clean l.
+Proof.
+  induction n as [|n IH]; intros todo done l Hn Ht Hd H.
+  - destruct todo; [|cbn in Hn; lia]. cbn in H; inversion H; subst; assumption.
+  - destruct todo as [|t todo]; [cbn in H; inversion H; subst; assumption|].
+    cbn in Hn. apply clean_cons in Ht as [Ht1 Ht2].
+    assert (Hother : dc todo (t :: done) = Some l -> clean l).
+    { intros H'. eapply IH; [| |apply clean_cons; split|exact H']; try eassumption; lia. }
+    destruct t; cbn [dc] in H; try (apply Hother; exact H). clear Hother.
+    pose proof (skip1_clean _ Hd) as Hd1.
+    remember (skip1 done) as sd eqn:Esd. destruct sd as [|tj r]; [discriminate|]. apply clean_cons in Hd1 as [Hj Hr].
+    pose proof (skip1_clean _ Ht2) as Hl1. pose proof (skip1_length todo) as Hlen.
+    remember (skip1 todo) as st eqn:El. destruct st as [|tk l2]; [discriminate|]. apply clean_cons in Hl1 as [Hk Hl2]. cbn in Hlen.
+    pose proof (skip1_length l2). pose proof (skip1_clean _ Hl2). pose proof (skip1_clean _ Hr).
+    destruct (is_plm tk).
+    + destruct (is_plm tj).
+      * eapply IH; [| | |exact H]; [lia|assumption|apply clean_cons; split; [reflexivity|assumption]].
+      * eapply IH; [| | |exact H]; [lia|assumption|apply clean_cons; split; assumption].
+    + destruct (is_plm tj).
+      * eapply IH; [| | |exact H]; [cbn; lia|apply clean_cons; split; assumption|assumption].
+      * destruct (token_concat tk tj) as [t'|] eqn:Ec; [|discriminate].
+        eapply IH; [| | |exact H]; [lia|assumption|].
+        apply clean_cons; split; [|assumption]. unfold token_concat in Ec. eapply classify_nm; eassumption.
+Qed.
+
+Lemma do_concat_clean : forall l l', clean l -> do_concat l = Some l' -> clean l'.
+Proof.
+  intros l l' H E; unfold do_concat in E. destruct (dc (rev l) []) as [x|] eqn:D; [|discriminate]. inversion E; subst.
+  assert (Hx : clean x).
+  { apply (dc_clean (length (rev l)) (rev l) [] x); [apply le_n|apply clean_rev; exact H|reflexivity|exact D]. }
+  clear D E. induction x as [|t x IH]; [reflexivity|]. apply clean_cons in Hx as [H1 H2]. cbn.
+  apply clean_cons; split; [destruct t; cbn in *; congruence|auto].
+Qed.
+
+(* a call whose replacement list is being rescanned has no replacement tokens left to read and nothing read
+   (run_repl builds it so); a call waiting for the expansion of an argument has read the parameter *)
+Definition in_rescan (mc : mcall) : bool := match mc_prev mc with [] => true | _ => false end.
+Definition names_R (cs : list mcall) : list spelling := map mc_name (filter in_rescan cs).
+
+Fixpoint a_ok (cs : list mcall) : Prop :=
+  match cs with
+  | [] => True
+  | mc :: r => (in_rescan mc = false -> ~ In (mc_name mc) (names_R r)) /\ a_ok r
+  end.
+
+Definition mc_clean (mc : mcall) : Prop := clean (mc_buf mc) /\ cleans (mc_args mc) /\ clean (mc_rest mc).
+Definition table_clean (d : defs) : Prop := forall n m, d n = Some m -> clean (m_body m).
+
+Record cinv (i : list tok) (cs : list mcall) (ig : list spelling) : Prop := mkcinv {
+  c_mark : markers i = map in_rescan cs;       (* one T_EOR / T_EOA per call, in stack order *)
+  c_ign : ig = names_R cs;                     (* ignore_p is set exactly for the calls being rescanned *)
+  c_nodup : NoDup ig;                          (* ... which are calls of pairwise different macros *)
+  c_aok : a_ok cs;
+  c_clean : Forall mc_clean cs }.
+
+Definition inv (s : state) : Prop := cinv (inp s) (calls s) (ign s) /\ clean (out s).
+
+Lemma cinv_nm_cons : forall t r cs ig, nm t = true -> cinv (t :: r) cs ig -> cinv r cs ig.
+Proof. intros t r cs ig Ht [H1 H2 H3 H4 H5]; constructor; try assumption. rewrite <- H1. symmetry; apply markers_nm_cons; assumption. Qed.
+Lemma cinv_nm_cons' : forall t r cs ig, nm t = true -> cinv r cs ig -> cinv (t :: r) cs ig.
+Proof. intros t r cs ig Ht [H1 H2 H3 H4 H5]; constructor; try assumption. rewrite <- H1. apply markers_nm_cons; assumption. Qed.
+
+Lemma cinv_pop : forall r cs ig, cinv (TEor :: r) cs ig ->
+  exists cs' ig', pop_call cs ig = Some (cs', ig') /\ cinv r cs' ig' /\ (forall x, In x ig' -> In x ig).
+Proof.
+  intros r cs ig [H1 H2 H3 H4 H5]. cbn in H1. destruct cs as [|mc cs]; [discriminate|].
+  cbn in H1. inversion H1 as [[Hm Hr]]. exists cs, (unignore (mc_name mc) ig). split; [reflexivity|].
+  unfold names_R in H2; cbn in H2. rewrite <- Hm in H2. cbn in H2. fold (names_R cs) in H2.
+  split; [|intros x; apply unignore_incl].
+  subst ig. rewrite unignore_head by assumption.
+  constructor; [exact Hr|reflexivity|inversion H3; assumption|exact (proj2 H4)|inversion H5; assumption].
+Qed.
+
+Lemma skip_inv : forall i cs ig ws, cinv i cs ig ->
+  exists i' cs' ig' ws', skip_to_paren i cs ig ws = Some (i', cs', ig', ws') /\ cinv i' cs' ig' /\ (forall x, In x ig' -> In x ig).
+Proof.
+  induction i as [|t i IH]; intros cs ig ws H.
+  - exists [], cs, ig, ws. cbn. auto.
+  - destruct t; cbn [skip_to_paren];
+      try (do 4 eexists; split; [reflexivity|split; [exact H|auto]]).
+    + apply IH. eapply cinv_nm_cons; [|exact H]; reflexivity.
+    + apply IH. eapply cinv_nm_cons; [|exact H]; reflexivity.
+    + destruct (cinv_pop _ _ _ H) as [cs1 [ig1 [E [Hc Hi]]]]. rewrite E.
+      destruct (IH cs1 ig1 ws Hc) as [i' [cs' [ig' [ws' [E2 [Hc2 Hi2]]]]]].
+      exists i', cs', ig', ws'. split; [exact E2|]. split; [exact Hc2|auto].
+Qed.
+
+Lemma skip_ws_nm : forall i cs ig ws i' cs' ig' ws',
+  (forall w, ws = Some w -> nm w = true) ->
+  skip_to_paren i cs ig ws = Some (i', cs', ig', ws') -> forall w, ws' = Some w -> nm w = true.
+Proof.
+  induction i as [|t i IH]; intros cs ig ws i' cs' ig' ws' Hw E; cbn in E.
+  - inversion E; subst; exact Hw.
+  - destruct t; try (inversion E; subst; exact Hw).
+    + eapply IH; [|exact E]. intros w Hs; inversion Hs; reflexivity.
+    + eapply IH; [|exact E]. intros w Hs; inversion Hs; reflexivity.
+    + destruct (pop_call cs ig) as [[a b]|]; [|discriminate]. eapply IH; [exact Hw|exact E].
+Qed.
+
+Lemma fa_finish_cleans : forall q plen a a', cleans a -> fa_finish q plen a = Some a' -> cleans a'.
+Proof.
+  intros q plen a a' H E; unfold fa_finish in E.
+  destruct plen; [destruct a as [|x [|y a]]|];
+    repeat match type of E with context [if ?b then _ else _] => destruct b end;
+    try discriminate; inversion E; subst; try assumption; constructor.
+Qed.
+
+Lemma find_args_inv : forall q i cs ig plen var level va_p args arg nlp es,
+  cinv i cs ig -> cleans args -> clean arg ->
+  match find_args q i cs ig plen var level va_p args arg nlp es with
+  | FaOk r cs' ig' a => cinv r cs' ig' /\ (forall x, In x ig' -> In x ig) /\ cleans a
+  | FaBad w => w <> 12 /\ 10 <= w
+  end.
+Proof.
+  induction i as [|t i IH]; intros cs ig plen var level va_p args arg nlp es H Ha Hg; [cbn; split; [discriminate|lia]|].
+  assert (Hfin : match fa_finish q plen (rev (rev arg :: args)) with
+                 | Some a => cleans a
+                 | None => True
+                 end).
+  { destruct (fa_finish q plen (rev (rev arg :: args))) eqn:E; [|exact I].
+    eapply fa_finish_cleans; [|exact E]. unfold cleans. apply Forall_rev. constructor; [apply clean_rev; assumption|assumption]. }
+  assert (Hgen : forall t', nm t' = true -> t' <> TBoa -> cinv (t' :: i) cs ig ->
+     match (if nlp && is_punct sharp t' then FaBad 14
+            else if (level =? 0) && is_punct rparen t' then
+                   match fa_finish q plen (rev (rev arg :: args)) with
+                   | Some a => FaOk i cs ig a
+                   | None => FaBad 15
+                   end
+            else if (level =? 0) && negb va_p && is_punct comma t' then
+                   find_args q i cs ig plen var level ((length args + 1 =? plen - 1) && var) (rev arg :: args) [] false false
+            else find_args q i cs ig plen var
+                           (if is_punct rparen t' then level - 1 else if is_punct lparen t' then level + 1 else level)
+                           va_p args (t' :: arg) (match t' with TNl => true | _ => false end) false) with
+     | FaOk r cs' ig' a => cinv r cs' ig' /\ (forall x, In x ig' -> In x ig) /\ cleans a
+     | FaBad w => w <> 12 /\ 10 <= w
+     end).
+  { intros t' Hn Hb Hc. apply cinv_nm_cons in Hc; [|assumption].
+    destruct (nlp && is_punct sharp t'); [split; [discriminate|lia]|].
+    destruct ((level =? 0) && is_punct rparen t').
+    - destruct (fa_finish q plen (rev (rev arg :: args))); [|split; [discriminate|lia]]. auto.
+    - destruct ((level =? 0) && negb va_p && is_punct comma t').
+      + apply IH; [assumption| |reflexivity]. constructor; [apply clean_rev; assumption|assumption].
+      + apply IH; [assumption|assumption|]. apply clean_cons; split; assumption. }
+  destruct t; cbn [find_args]; try (apply Hgen; [reflexivity|discriminate|exact H]); try (split; [discriminate|lia]).
+  (* TEor *)
+  destruct (q_single_eor q && es); [split; [discriminate|lia]|].
+  destruct (cinv_pop _ _ _ H) as [cs1 [ig1 [E [Hc Hi]]]]. rewrite E.
+  specialize (IH cs1 ig1 plen var level va_p args arg nlp true Hc Ha Hg).
+  destruct (find_args q i cs1 ig1 plen var level va_p args arg nlp true); [|exact IH].
+  destruct IH as [I1 [I2 I3]]. auto.
+Qed.
+
+Inductive pr_ok : pr_result -> Prop :=
+| pr_ok_end : forall args buf, cleans args -> clean buf -> pr_ok (PrEnd args buf)
+| pr_ok_arg : forall i prev rest args buf, cleans args -> clean buf -> clean rest -> prev <> [] -> pr_ok (PrArg i prev rest args buf).
+
+Lemma proc_repl_ok : forall ps rest prev shp args buf,
+  clean rest -> cleans args -> clean buf -> pr_ok (proc_repl ps prev rest shp args buf).
+Proof.
+  induction rest as [|t rest IH]; intros prev shp args buf Hr Ha Hb; cbn [proc_repl]; [constructor; assumption|].
+  apply clean_cons in Hr as [Ht Hr].
+  assert (Hdef : forall sh, pr_ok (proc_repl ps (t :: prev) rest sh args (add_token buf t))).
+  { intros sh. apply IH; [assumption|assumption|apply add_token_clean; assumption]. }
+  destruct t; try apply Hdef.
+  destruct painted; [apply Hdef|].
+  destruct (find_param ps s) as [i|]; [|apply Hdef].
+  destruct shp as [p|].
+  - apply IH; [assumption| |].
+    + apply set_nth_cleans; [assumption|]. apply strip_ws1_clean, nth_cleans; assumption.
+    + apply add_token_clean; [apply clean_firstn; assumption|reflexivity].
+  - destruct (paste_operand prev rest).
+    + destruct (empty_arg (nth i args [])).
+      * apply IH; [assumption|assumption|apply add_token_clean; [assumption|reflexivity]].
+      * apply IH; [assumption|assumption|apply add_tokens_clean; [assumption|apply nth_cleans; assumption]].
+    + constructor; try assumption. discriminate.
+Qed.
+
+Lemma names_R_cons_R : forall mc cs, in_rescan mc = true -> names_R (mc :: cs) = mc_name mc :: names_R cs.
+Proof. intros mc cs H; unfold names_R; cbn; rewrite H; reflexivity. Qed.
+Lemma names_R_cons_A : forall mc cs, in_rescan mc = false -> names_R (mc :: cs) = names_R cs.
+Proof. intros mc cs H; unfold names_R; cbn; rewrite H; reflexivity. Qed.
+
+Lemma run_repl_inv : forall r out0 mc cs ig s',
+  cinv r cs ig -> mc_clean mc -> clean out0 -> ~ In (mc_name mc) ig ->
+  run_repl r out0 mc cs ig = Next s' -> inv s'.
+Proof.
+  intros r out0 mc cs ig s' [H1 H2 H3 H4 H5] [Hb [Ha Hr]] Ho Hn E. unfold run_repl in E.
+  pose proof (proc_repl_ok (mc_params mc) (mc_rest mc) (mc_prev mc) None (mc_args mc) (mc_buf mc) Hr Ha Hb) as Hp.
+  destruct (proc_repl _ _ _ _ _ _) as [args buf|i prev rest args buf];
+    [inversion Hp as [? ? Hca Hcb|]|inversion Hp as [|? ? ? ? ? Hca Hcb Hcr Hpn]]; subst.
+  - destruct (do_concat buf) as [l|] eqn:D; [|discriminate]. inversion E; subst. clear E.
+    pose proof (do_concat_clean _ _ Hcb D) as Hl.
+    split; [|exact Ho]. cbn [inp calls ign].
+    constructor.
+    + rewrite markers_app, (markers_clean _ Hl). cbn. rewrite H1. reflexivity.
+    + rewrite names_R_cons_R by reflexivity. reflexivity.
+    + constructor; assumption.
+    + cbn. split; [discriminate|assumption].
+    + constructor; [|assumption]. repeat split; cbn; try assumption; try reflexivity.
+  - inversion E; subst. clear E. split; [|exact Ho]. cbn [inp calls ign].
+    assert (Hph : in_rescan (mkmc (mc_name mc) (mc_params mc) prev rest args buf) = false).
+    { unfold in_rescan; cbn. destruct prev; [congruence|reflexivity]. }
+    constructor.
+    + cbn. rewrite markers_app, (markers_clean _ (nth_cleans _ i Hca)). cbn. rewrite H1, Hph. reflexivity.
+    + rewrite names_R_cons_A by exact Hph. reflexivity.
+    + assumption.
+    + cbn. split; [intros _; exact Hn|assumption].
+    + constructor; [|assumption]. repeat split; cbn; try assumption; try reflexivity.
+Qed.
+
+Lemma split_boa_clean : forall o acc a o', clean o -> clean acc -> split_boa o acc = Some (a, o') -> clean a /\ clean o'.
+Proof.
+  induction o as [|t o IH]; intros acc a o' Ho Hacc E; [discriminate|].
+  apply clean_cons in Ho as [Ht Ho].
+  destruct t; cbn [split_boa] in E; try (cbn in Ht; discriminate);
+    try (eapply IH; [exact Ho| |exact E]; apply clean_cons; split; [reflexivity|assumption]).
+  inversion E; subst; split; assumption.
+Qed.
+
+(* the invariant is kept by every iteration of the main loop, and the checks for an empty stack never fire *)
+Lemma step_inv : forall q d s, table_clean d -> inv s ->
+  match step q d s with
+  | Next s' => inv s'
+  | Bad w => w <> 2 /\ w <> 4 /\ w <> 5 /\ w <> 12
+  | Done => True
+  end.
+Proof.
+  intros q d [i o cs ig n] Ht [Hc Ho]. cbn [inp out calls ign] in *. unfold step; cbn [inp out calls ign nl].
+  destruct i as [|t r]; [exact I|].
+  destruct (n && is_punct sharp t); [repeat split; discriminate|].
+  assert (Hout : forall t' n', nm t' = true -> cinv (t' :: r) cs ig -> inv (out_tok (mkst (t :: r) o cs ig n) r t' n')).
+  { intros t' n' Hn Hc'. split; cbn; [eapply cinv_nm_cons; eassumption|]. apply clean_cons; split; assumption. }
+  destruct t; try (apply Hout; [reflexivity|exact Hc]).
+  - (* identifier *)
+    destruct painted; [apply Hout; [reflexivity|exact Hc]|].
+    destruct (d s) as [m|] eqn:Ed; [|apply Hout; [reflexivity|exact Hc]].
+    destruct (ignored ig s) eqn:Ei.
+    { split; cbn; [eapply cinv_nm_cons; [|exact Hc]; reflexivity|apply clean_cons; split; [reflexivity|assumption]]. }
+    assert (Hni : ~ In s ig) by (intros Hi; apply ignored_In in Hi; congruence).
+    apply cinv_nm_cons in Hc; [|reflexivity].
+    destruct (m_params m) as [ps|].
+    + destruct (skip_inv r cs ig None Hc) as [i1 [cs1 [ig1 [ws1 [E [Hc1 Hi1]]]]]]. rewrite E.
+      destruct i1 as [|t1 i1]; cbn [tl].
+      { split; cbn; [|apply clean_cons; split; [reflexivity|assumption]].
+        destruct ws1 as [w|]; [|assumption].
+        assert (Hw : nm w = true).
+        { eapply (skip_ws_nm _ _ _ _ _ _ _ _ (fun w (Hs : None = Some w) => ltac:(discriminate)) E); reflexivity. }
+        apply cinv_nm_cons'; assumption. }
+      destruct (is_punct lparen t1) eqn:Ep.
+      * assert (Hn1 : nm t1 = true) by (destruct t1; cbn in *; congruence).
+        apply cinv_nm_cons in Hc1; [|exact Hn1].
+        pose proof (find_args_inv q i1 cs1 ig1 (length ps) (variadic ps) 0 ((length ps =? 1) && variadic ps) [] [] false false Hc1
+                                  (Forall_nil _) eq_refl) as Hf.
+        destruct (find_args q i1 cs1 ig1 _ _ _ _ _ _ _ _) as [rest cs2 ig2 a|w]; [|destruct Hf as [Hf1 Hf2]; repeat split; try assumption; lia].
+        destruct Hf as [Hc2 [Hi2 Ha]].
+        destruct (run_repl rest o (mkmc s ps [] (m_body m) a []) cs2 ig2) as [|s'|w] eqn:Er.
+        -- exact I.
+        -- eapply run_repl_inv; [exact Hc2| |exact Ho| |exact Er].
+           ++ repeat split; cbn; try assumption; try reflexivity; try exact (Ht _ _ Ed).
+           ++ cbn. intros Hi. apply Hni. auto.
+        -- unfold run_repl in Er.
+           destruct (proc_repl _ _ _ _ _ _); [destruct (do_concat _); [discriminate|]|discriminate].
+           inversion Er; subst. repeat split; discriminate.
+      * split; cbn; [|apply clean_cons; split; [reflexivity|assumption]].
+        destruct ws1 as [w|]; [|assumption].
+        assert (Hw : nm w = true).
+        { eapply (skip_ws_nm _ _ _ _ _ _ _ _ (fun w (Hs : None = Some w) => ltac:(discriminate)) E); reflexivity. }
+        apply cinv_nm_cons'; assumption.
+    + destruct (do_concat (add_tokens [] (m_body m))) as [l|] eqn:D; [|repeat split; discriminate].
+      assert (Hl : clean l).
+      { eapply do_concat_clean; [|exact D]. apply add_tokens_clean; [reflexivity|exact (Ht _ _ Ed)]. }
+      destruct Hc as [H1 H2 H3 H4 H5]. split; [|exact Ho]. cbn [inp calls ign]. constructor.
+      * rewrite markers_app, (markers_clean _ Hl). cbn. rewrite H1. reflexivity.
+      * rewrite names_R_cons_R by reflexivity. cbn. rewrite H2. reflexivity.
+      * constructor; assumption.
+      * cbn. split; [discriminate|assumption].
+      * constructor; [|assumption]. repeat split; cbn; try reflexivity; constructor.
+  - (* TEoa *)
+    destruct Hc as [H1 H2 H3 H4 H5]. cbn in H1. destruct cs as [|mc cs]; [discriminate|].
+    cbn in H1. inversion H1 as [[Hm Hr]]. symmetry in Hm.
+    destruct (split_boa o []) as [[a o0]|] eqn:Es; [|repeat split; discriminate].
+    destruct (split_boa_clean o [] a o0 Ho (eq_refl : clean []) Es) as [Ha Ho0].
+    inversion H5 as [|? ? [Hb [Hargs Hrest]] H5']; subst.
+    rewrite names_R_cons_A in H3 |- * by exact Hm.
+    destruct (run_repl r o0 _ cs (names_R cs)) as [|s'|w] eqn:Er.
+    + exact I.
+    + eapply run_repl_inv; [| | | |exact Er].
+      * constructor; [exact Hr|reflexivity|exact H3|exact (proj2 H4)|exact H5'].
+      * repeat split; cbn; try assumption; apply add_tokens_clean; assumption.
+      * exact Ho0.
+      * cbn. exact (proj1 H4 Hm).
+    + unfold run_repl in Er.
+      destruct (proc_repl _ _ _ _ _ _); [destruct (do_concat _); [discriminate|]|discriminate].
+      inversion Er; subst. repeat split; discriminate.
+  - (* TEor *)
+    destruct (cinv_pop _ _ _ Hc) as [cs1 [ig1 [E [Hc1 _]]]]. rewrite E. split; assumption.
+Qed.
+
+(* ---------- reachable states ---------- *)
+Inductive reach (q : quirks) (d : defs) : state -> Prop :=
+| reach_init : forall input, clean input -> reach q d (init input)
+| reach_step : forall s s', reach q d s -> step q d s = Next s' -> reach q d s'.
+
+Lemma init_inv : forall input, clean input -> inv (init input).
+Proof.
+  intros input H; split; [|reflexivity]. cbn. constructor; cbn; try constructor.
+  apply markers_clean; assumption.
+Qed.
+
+Lemma reach_inv : forall q d s, table_clean d -> reach q d s -> inv s.
+Proof.
+  intros q d s Ht H; induction H as [input Hi|s s' Hr IH E]; [apply init_inv; assumption|].
+  pose proof (step_inv q d s Ht IH) as Hs. rewrite E in Hs. exact Hs.
+Qed.
+
+(* the calls on the stack are calls of macros of the table *)
+Definition suffix (a b : list mcall) : Prop := exists pre, b = pre ++ a.
+Lemma suffix_refl : forall a, suffix a a. Proof. intros a; exists []; reflexivity. Qed.
+Lemma suffix_trans : forall a b c, suffix a b -> suffix b c -> suffix a c.
+Proof. intros a b c [p1 H1] [p2 H2]; subst. exists (p2 ++ p1). rewrite app_assoc; reflexivity. Qed.
+Lemma pop_suffix : forall cs ig cs' ig', pop_call cs ig = Some (cs', ig') -> suffix cs' cs.
+Proof. intros [|mc cs] ig cs' ig' H; cbn in H; [discriminate|]. inversion H; subst. exists [mc]; reflexivity. Qed.
+Lemma skip_suffix : forall i cs ig ws i' cs' ig' ws', skip_to_paren i cs ig ws = Some (i', cs', ig', ws') -> suffix cs' cs.
+Proof.
+  induction i as [|t i IH]; intros cs ig ws i' cs' ig' ws' E; cbn in E.
+  - inversion E; subst; apply suffix_refl.
+  - destruct t; try (inversion E; subst; apply suffix_refl); try (eapply IH; exact E).
+    destruct (pop_call cs ig) as [[a b]|] eqn:P; [|discriminate].
+    eapply suffix_trans; [eapply IH; exact E|eapply pop_suffix; exact P].
+Qed.
+Lemma find_args_suffix : forall q i cs ig plen var level va_p args arg nlp es r cs' ig' a,
+  find_args q i cs ig plen var level va_p args arg nlp es = FaOk r cs' ig' a -> suffix cs' cs.
+Proof.
+  induction i as [|t i IH]; intros cs ig plen var level va_p args arg nlp es r cs' ig' a E; [discriminate|].
+  destruct t; cbn [find_args] in E; try discriminate;
+    try (repeat match type of E with
+                | context [if ?b then _ else _] => destruct b
+                | context [match fa_finish ?x ?y ?z with _ => _ end] => destruct (fa_finish x y z)
+                end; try discriminate;
+         first [inversion E; subst; apply suffix_refl | eapply IH; exact E]).
+  destruct (q_single_eor q && es); [discriminate|].
+  destruct (pop_call cs ig) as [[c1 g1]|] eqn:P; [|discriminate].
+  eapply suffix_trans; [eapply IH; exact E|eapply pop_suffix; exact P].
+Qed.
+
+Definition in_table (d : defs) (cs : list mcall) : Prop := Forall (fun mc => d (mc_name mc) <> None) cs.
+Lemma in_table_suffix : forall d a b, suffix a b -> in_table d b -> in_table d a.
+Proof. intros d a b [p H] Hb; subst. unfold in_table in *. apply Forall_app in Hb; tauto. Qed.
+
+Lemma run_repl_in_table : forall d r o mc cs ig s', d (mc_name mc) <> None -> in_table d cs ->
+  run_repl r o mc cs ig = Next s' -> in_table d (calls s').
+Proof.
+  intros d r o mc cs ig s' Hm Hc E; unfold run_repl in E.
+  destruct (proc_repl _ _ _ _ _ _); [destruct (do_concat _); [|discriminate]|]; inversion E; subst; cbn;
+    constructor; assumption.
+Qed.
+
+Lemma step_in_table : forall q d s s', in_table d (calls s) -> step q d s = Next s' -> in_table d (calls s').
+Proof.
+  intros q d [i o cs ig n] s' H E. unfold step in E; cbn [inp out calls ign nl] in *.
+  destruct i as [|t r]; [discriminate|].
+  destruct (n && is_punct sharp t); [discriminate|].
+  destruct t; try (inversion E; subst; exact H).
+  - destruct painted; [inversion E; subst; exact H|].
+    destruct (d s) as [m|] eqn:Ed; [|inversion E; subst; exact H].
+    destruct (ignored ig s); [inversion E; subst; exact H|].
+    destruct (m_params m) as [ps|].
+    + destruct (skip_to_paren r cs ig None) as [[[[i1 cs1] ig1] ws1]|] eqn:Es; [|discriminate].
+      pose proof (in_table_suffix d _ _ (skip_suffix _ _ _ _ _ _ _ _ Es) H) as H1.
+      destruct (match i1 with t1 :: _ => is_punct lparen t1 | [] => false end).
+      * destruct (find_args q (tl i1) cs1 ig1 _ _ _ _ _ _ _ _) as [rest cs2 ig2 a|w] eqn:Ef; [|discriminate].
+        eapply run_repl_in_table; [| |exact E]; [cbn; congruence|].
+        eapply in_table_suffix; [eapply find_args_suffix; exact Ef|exact H1].
+      * inversion E; subst; exact H1.
+    + destruct (do_concat _); [|discriminate]. inversion E; subst; cbn. constructor; [cbn; congruence|exact H].
+  - destruct cs as [|mc cs]; [discriminate|]. destruct (split_boa o []) as [[a o0]|]; [|discriminate].
+    inversion H; subst. eapply run_repl_in_table; [| |exact E]; assumption.
+  - destruct (pop_call cs ig) as [[c1 g1]|] eqn:P; [|discriminate]. inversion E; subst; cbn.
+    eapply in_table_suffix; [eapply pop_suffix; exact P|exact H].
+Qed.
+
+Lemma reach_in_table : forall q d s, reach q d s -> in_table d (calls s).
+Proof. intros q d s H; induction H as [|s s' _ IH E]; [constructor|eapply step_in_table; eassumption]. Qed.
+
+Lemma names_R_incl : forall cs x, In x (names_R cs) -> exists mc, In mc cs /\ mc_name mc = x.
+Proof.
+  intros cs x H; unfold names_R in H. apply in_map_iff in H as [mc [E Hi]]. apply filter_In in Hi as [Hi _]. eauto.
+Qed.
+
+(* The painting discipline of function-like macros.  In every reachable state:
+   - the names whose ignore_p flag is set are exactly the macros of the calls whose replacement list is being
+     rescanned, no macro twice: a macro is never re-entered while its replacement is rescanned, so the depth of
+     nested rescanning never exceeds the number of macros of the table;
+   - the T_EOR / T_EOA markers in the pending input correspond one to one, in order, to the entries of
+     macro_call_stack: pop_macro_call never finds the stack empty (the [Bad] codes 2, 4, 5, 12 of the model). *)
+Lemma painting_discipline_lemma : forall q d s names, table_clean d -> (forall n, d n <> None -> In n names) ->
+  reach q d s ->
+  NoDup (ign s) /\ ign s = names_R (calls s) /\ length (ign s) <= length names /\
+  markers (inp s) = map in_rescan (calls s).
+Proof.
+  intros q d s names Ht Hn Hr. destruct (reach_inv q d s Ht Hr) as [[H1 H2 H3 H4 H5] Ho].
+  repeat split; try assumption.
+  apply NoDup_incl_length; [assumption|]. intros x Hx. apply Hn. rewrite H2 in Hx.
+  destruct (names_R_incl _ _ Hx) as [mc [Hi E]]. pose proof (reach_in_table q d s Hr) as Hd.
+  unfold in_table in Hd. rewrite Forall_forall in Hd. rewrite <- E. apply Hd; assumption.
+Qed.
+
+Lemma no_stack_underflow_lemma : forall q d s w, table_clean d -> reach q d s -> step q d s = Bad w ->
+  w <> 2 /\ w <> 4 /\ w <> 5 /\ w <> 12.
+Proof. intros q d s w Ht Hr E. pose proof (step_inv q d s Ht (reach_inv q d s Ht Hr)) as H. rewrite E in H. exact H. Qed.
+
+(* a name whose flag is set is not expanded but painted, and a painted identifier stays as it is, for ever *)
+Lemma ignored_painted_lemma : forall q d o cs ig n s r m, d s = Some m -> ignored ig s = true ->
+  step q d (mkst (TIdent false s :: r) o cs ig n) = Next (mkst r (TIdent true s :: o) cs ig false).
+Proof. intros q d o cs ig n s r m Hd Hi. unfold step; cbn [inp nl out calls ign is_punct]. rewrite andb_false_r, Hd, Hi. reflexivity. Qed.
+
+Lemma painted_not_expanded_lemma : forall q d o cs ig n s r,
+  step q d (mkst (TIdent true s :: r) o cs ig n) = Next (mkst r (TIdent true s :: o) cs ig false).
+Proof. intros. unfold step; cbn [inp nl out calls ign is_punct]. rewrite andb_false_r. reflexivity. Qed.
